@@ -572,7 +572,7 @@ def link_conditions(lk, mp, u, x, T, steps, tol=1e-6):
             if len(I2) != 1:
                 return None, 0
             if I2[0] == a:
-                continue      # a variable linked to itself: the second assignment overwrites the first (notes/findings_linked.md, L-1)
+                continue      # a variable linked to itself: the second assignment overwrites the first (finding L-1 of pkg-linked; Lean witness EAO.Linked.Ex.self_link_no_restriction)
             n += 1
             if x[a] > u[a] * x[I2[0]] + tol * max(1.0, abs(u[a])):
                 bad.append('step %d, offset %d: v1 = %.6g > u1 * v2 = %.6g * %.6g' % (t, i, x[a], u[a], x[I2[0]]))
@@ -688,13 +688,18 @@ def impl_result_sizes(ir):
 
 # ------------------------------------------------------------------ theorems
 THEOREMS_LINKED = [
-    ('EAO.Properties.Linked', 'EAO.Linked.linked_wf', 'a successful linked set-up keeps name, nodes, costs, lower bounds, mapping and the rows of the structured problem (as a prefix) and the number of upper bounds; every new row is of type U with right-hand side 0 and mentions only columns of the matrix (< acols) that are labels of a mapping row of variable 1 or variable 2 at a step < T'),
+    ('EAO.Properties.Linked', 'EAO.Linked.linked_wf', 'a successful linked set-up keeps name, nodes, costs, number of variables, lower bounds, mapping, the number of upper bounds and the rows of the structured problem (as a prefix); every new row is of type U with right-hand side 0 and mentions only columns of the matrix (< acols) that are labels of a mapping row of variable 1 or variable 2 (right name and node) at a step < T'),
+    ('EAO.Properties.Linked', 'EAO.Linked.linked_rows_lt_n', 'when the matrix has one column per variable every new row mentions existing variables only (< n)'),
     ('EAO.Properties.Linked', 'EAO.Linked.linked_meaning', 'unique look-ups a_t, b_s (different variables), 0 <= l(a_t), 0 <= u(a_t), x(b_s) in {0,1}: x is feasible (bounds and rows) for the linked problem iff it is feasible for the structured problem and for every step t < T and offset i in [-time_back, time_forward]: x(a_t) = 0 if t + i < -already_running, else x(a_t) > 0 -> x(b_{t+i}) = 1 whenever 0 <= t + i < T'),
-    ('EAO.Properties.Linked', 'EAO.Linked.linked_forces', 'the direction used in practice, without the hypotheses on u: a feasible point of the linked problem with x(b) in {0,1} and x(a_t) >= 0 has x(a_t) > 0 -> x(b_{t+i}) = 1 inside the horizon and x(a_t) = 0 where asset 2 has not been running long enough'),
-    ('EAO.Properties.Linked', 'EAO.Linked.linked_ok', 'with unique look-ups inside the variable range and a matrix the set-up succeeds (no error class)'),
-    ('EAO.Properties.Linked', 'EAO.Linked.linked_unit_change', 'the three durations enter only through ceil(duration * unit / step): re-expressed in another main time unit (durations times k, unit length divided by k) the resolved link, hence the linked problem or error, is the same; the conversion is the one of the CHP model (convertSteps = toNat of it)'),
-    ('EAO.Properties.Linked', 'EAO.Linked.linked_window', 'no row or bound change touches a variable outside the structured asset own grid: an upper bound that changed, and every column of a new row, belongs to a variable with a mapping row of the structured problem at a step < T (hence in any window W that contains all its mapping steps); the mapping itself - dispatch rows included - is the structured one'),
+    ('EAO.Properties.Linked', 'EAO.Linked.linked_forces', 'the direction used in practice, without hypotheses on the bounds of the structured problem: a feasible point of the linked problem with x(b_s) in {0,1} and x(a_t) >= 0 has x(a_t) > 0 -> x(b_{t+i}) = 1 inside the horizon and x(a_t) = 0 where asset 2 has not been running long enough'),
+    ('EAO.Properties.Linked', 'EAO.Linked.linked_ok', 'with unique look-ups inside the column range and the bound vector the set-up succeeds (no error class)'),
+    ('EAO.Properties.Linked', 'EAO.Linked.linked_unit_change', 'C12: the three durations enter only through ceil(duration * unit / step): re-expressed in another main time unit (durations times k, unit length divided by k) the resolved link, hence the linked problem or error, is the same; the conversion is the one of the CHP model (convertSteps = toNat of it, invariant under the same change)'),
+    ('EAO.Properties.Linked', 'EAO.Linked.linked_window', 'C08: the mapping is the structured one; an upper bound that changed belongs to a variable with a mapping row of variable 1 at a step < T, every column of a new row to a variable with a mapping row at a step < T, both inside any step set W holding all mapping steps of the structured problem; a variable without mapping row at a step < T keeps its bound and occurs in no new row'),
     ('EAO.Properties.Linked', 'EAO.Linked.linked_costs_only', 'costs_only returns the cost vector of the structured problem, which is also the cost vector of the linked problem'),
+    ('EAO.Properties.Linked', 'EAO.Linked.Ex.self_link_no_restriction', 'witness (finding L-1): a variable linked to itself at offset 0 gets the row -u x <= 0, which x = u = 1/2 satisfies although x > u x'),
+    ('EAO.Properties.Linked', 'EAO.Linked.Ex.late_start_index_error', 'witness: variables living at absolute steps 1, 2 with T = 2 are not found by the loop counter t = 0: error class index'),
+    ('EAO.Properties.Linked', 'EAO.Linked.Ex.several_labels', 'witness: two labels for variable 1 and one for variable 2 is a ValueError; one label for variable 1 and two for variable 2 broadcasts the coefficient'),
+    ('EAO.Properties.Linked', 'EAO.Linked.Ex.no_matrix', 'witness: a structured problem without matrix raises AttributeError as soon as a row is due, and nothing when T = 0'),
 ]
 ID = 'LINKED'
 THEOREMS = THEOREMS_LINKED
